@@ -344,6 +344,7 @@ def line_module(d, name, cases, small_ns=(), modes=(), lags=((1, 1),), base="Lin
 LINE_CONSTANTS = dict(Cases="<- MCCases", SmallNs="<- MCSmallNs", SmallW="<- MCSmallW", SmallS="<- MCSmallS",
                       Modes="<- MCModes", Lags="<- MCLags")
 LINE_MODES = ("committor", "mfpt_sinks", "mfpt_cols")
+LINE_JAVA = ("-Xmx1200m", "-XX:ParallelGCThreads=2")    # few, large states
 
 
 def _line_jobs(ctx, d):
@@ -357,10 +358,10 @@ def _line_jobs(ctx, d):
         cases = line_cases([n], LINE_MODES, LAGS, first_id=nid)
         nid += len(cases)
         mod = line_module(d, "MCLine%d" % n, cases)
-        jobs.append(dict(module=mod, cfg=os.path.basename(cfg), cwd=d, workers=1, timeout=1800, java_opts=SMALL_HEAP,
+        jobs.append(dict(module=mod, cfg=os.path.basename(cfg), cwd=d, workers=1, timeout=1800, java_opts=LINE_JAVA,
                          label="line chains n=%d (%d cases), check+emit" % (n, len(cases))))
     mod = line_module(d, "MCLineSmall", [], small_ns=LINE_SMALL[ctx.tier], modes=LINE_MODES, lags=LAGS[:2])
-    jobs.append(dict(module=mod, cfg=os.path.basename(cfg), cwd=d, workers=1, timeout=1800, java_opts=SMALL_HEAP,
+    jobs.append(dict(module=mod, cfg=os.path.basename(cfg), cwd=d, workers=1, timeout=1800, java_opts=LINE_JAVA,
                      coverage=True, label="line chains n in %s, every placement, check+emit+action coverage"
                      % (list(LINE_SMALL[ctx.tier]),)))
     return jobs
@@ -669,11 +670,11 @@ def _trace_jobs(rng, count):
             k = int(rng.integers(2, n + 1))                 # states used by sources + sinks
             states = [int(x) for x in rng.choice(n, size=k, replace=False)]
             cut = int(rng.integers(1, k))
-            pair = (sorted(states[:cut]), sorted(states[cut:]))
+            pair = (states[:cut], states[cut:])             # listed in the (random) order drawn: the sets matter
             comm += [(pair, cn) for cn in ("dense", "csr", "lil")]
         sinks = []
         for _ in range(2):
-            snk = sorted(int(x) for x in rng.choice(n, size=int(rng.integers(1, n)), replace=False))
+            snk = [int(x) for x in rng.choice(n, size=int(rng.integers(1, n)), replace=False)]   # any order
             sinks.append((snk, lags[int(rng.integers(0, len(lags)))]))
         jobs.append(dict(A=A.tolist(), committors=comm, sinks=sinks,
                          allpairs=[lags[int(rng.integers(0, len(lags)))]]))
@@ -799,8 +800,8 @@ def run(ctx):
     t0 = time.time()
     jobs, meta = _jobs(ctx, d, rng)
     ljobs = [] if os.environ.get("VERIF_SMOKE") else _line_jobs(ctx, d)
-    results = ctx.tlc_parallel(ljobs + jobs, max_par=16)
-    line_results, results = results[:len(ljobs)], results[len(ljobs):]
+    results = ctx.tlc_parallel(jobs + ljobs, max_par=16)       # the (short) line jobs fill the slots freed first
+    results, line_results = results[:len(jobs)], results[len(jobs):]
     t1 = time.time()
     _run_traces(ctx, d, rng)
     t2 = time.time()
